@@ -40,7 +40,7 @@ PARTIAL = ["not Lean theorems here (checked by the independent predicate on the 
            "rectangular alignment with at least one column",
            "Split re-interleaving is proved for tables that are well formed (PartInv: preserved by every AddRange, theorem "
            "addRange_partInv) and total (what CheckSites tests); a partial table is outside the statement",
-           "CLI glue: cmd/subseq (--ref-seq, exact bytes; multi-alignment inputs), cmd/subsites and transpose (multi-alignment inputs = alignments one by one) are exercised on the built binary; cmd/split and cmd/extract only through C11's determinism runs"]
+           "CLI glue: cmd/subseq (--ref-seq, exact bytes; multi-alignment inputs), cmd/subsites and transpose (multi-alignment inputs = alignments one by one), cmd/split --partition and cmd/extract (tab-separated and GFF annotations, several blocks per gene, --ref-seq, reverse strand, --translate, file names; exact bytes of every file written) are exercised on the built binary against the library models"]
 
 NT = "ACGT"
 
@@ -193,7 +193,7 @@ def gen(rng, tier):
     for c in _gen_core(rng, tier):
         yield c
     from driver import cligen
-    for c in cligen.cases(rng, ['sites', 'split'], 40 if tier == "quick" else 400):
+    for c in cligen.cases(rng, ['sites', 'split', 'extract'], 40 if tier == "quick" else 400):
         yield c
     for _ in range(2 if tier == "quick" else 20):
         for argv in MULTI_CMDS:
